@@ -58,6 +58,10 @@ TEXT = {
          "is the documented one; rejected assignments keep the stored value; all other attributes by the grammar oracle on real setters and constructors",
          "np.array(dtype=float) modelled as rectangular nesting of numeric leaves; scalar/orientation/segment/pixel validators oracle-only",
          "Lean 4 theorems by structural induction over a value grammar + decide over the generated table + grammar x attribute differential oracle"),
+ "C20": ("proof (partial): at flat-dictionary level the resolution of get_style is leafwise 'show kwarg, else object, else families (last listed first), else base' for any number of families; last assignment wins; "
+         "no default key contains the magic separator (generated DEFAULTS tree); notations/validation/independence/reset by the style oracle on every family",
+         "flat model of MagicProperties (validators and nested property objects not modelled)",
+         "Lean 4 theorems by induction over the family list + decide over the generated DEFAULTS tree + leaf x source x notation oracle"),
 }
 props = [json.loads(l) for l in open("properties.jsonl")]
 checks = []
